@@ -187,6 +187,11 @@ class Interp(object):
                 return args
             return ("construct", cal, args)
         if k == "UnaryOperator":
+            if n["op"] == "!":
+                v = self.ev(n["c"][0])
+                if isinstance(v, (bool, int)):
+                    return not v
+                raise OutOfVocabulary("negation of a symbolic value")
             if n["op"] == "-":
                 v = self.ev(n["c"][0])
                 return [-as_poly(x) for x in v] if isinstance(v, list) else -as_poly(v)
@@ -204,6 +209,16 @@ class Interp(object):
                 v = self.ev(n["c"][1])
                 self.store(self.lval(n["c"][0]), v)
                 return v
+            if op in ("||", "&&"):
+                a = self.ev(n["c"][0])
+                if not isinstance(a, (bool, int)):
+                    raise OutOfVocabulary("symbolic operand of " + op)
+                if (op == "||" and a) or (op == "&&" and not a):
+                    return bool(a)
+                b = self.ev(n["c"][1])
+                if not isinstance(b, (bool, int)):
+                    raise OutOfVocabulary("symbolic operand of " + op)
+                return bool(b)
             a, b = self.ev(n["c"][0]), self.ev(n["c"][1])
             return self.arith(op, a, b, n)
         if k == "CompoundAssignOperator":
@@ -237,6 +252,8 @@ class Interp(object):
                 fn = self.ev(n["c"][1])
                 if isinstance(fn, tuple) and fn[0] == "lambda" and len(n["c"]) == 2:
                     return self.call_lambda(fn[1])
+                if isinstance(fn, tuple) and fn[0] == "member" and ("member:" + fn[1]) in self.acc:
+                    return self.acc["member:" + fn[1]]([self.ev(c) for c in n["c"][2:]])
                 raise OutOfVocabulary("call of " + show(n["c"][1]))
             raise OutOfVocabulary("operator" + str(oop))
         if k in ("CallExpr", "CXXMemberCallExpr"):
@@ -327,6 +344,11 @@ class Interp(object):
             return {"+": a + b, "-": a - b, "*": a * b, "<": a < b, ">": a > b, "<=": a <= b,
                     ">=": a >= b, "==": a == b, "!=": a != b}.get(op) if op != "/" else Fraction(a, b)
         if op in ("<", ">", "<=", ">=", "==", "!="):
+            hook = self.acc.get("assume")
+            if hook is not None:
+                r = hook(op, a, b, n)
+                if r is not None:
+                    return r
             raise OutOfVocabulary("comparison of symbolic values " + show(n))
         va, vb = isinstance(a, list), isinstance(b, list)
         if va and vb and op in ("+", "-"):
